@@ -636,6 +636,69 @@ func c11PoolStopOrder() bool {
 	return stop[0] < unload[0]
 }
 
+// c11SchedChecksLoaded: workerPool.scheduleWorker looks every pending job's shard up in the
+// pool's node map (`n, ok := p.nodes[...]`), drops the job when it is missing
+// (`if !ok { p.removeFromPending(..) ... }`) and schedules on the looked-up node.
+func c11SchedChecksLoaded() bool {
+	p := loadPkg(".")
+	fd := p.Func("workerPool", "scheduleWorker")
+	nodeVar := ""
+	drops := false
+	usesLooked := false
+	calls := 0
+	ast.Inspect(fd.Body, func(n ast.Node) bool {
+		switch x := n.(type) {
+		case *ast.AssignStmt:
+			if len(x.Lhs) == 2 && len(x.Rhs) == 1 {
+				if ie, ok := x.Rhs[0].(*ast.IndexExpr); ok && strings.HasSuffix(c11Sel(ie.X), ".nodes") {
+					if id, ok := x.Lhs[0].(*ast.Ident); ok {
+						nodeVar = id.Name
+					}
+				}
+			}
+		case *ast.IfStmt:
+			if u, ok := x.Cond.(*ast.UnaryExpr); ok && u.Op == token.NOT && c11Sel(u.X) == "ok" && nodeVar != "" {
+				ast.Inspect(x.Body, func(m ast.Node) bool {
+					if c, ok := m.(*ast.CallExpr); ok && strings.HasSuffix(c11Sel(c.Fun), ".removeFromPending") {
+						drops = true
+					}
+					return true
+				})
+			}
+		case *ast.CallExpr:
+			if strings.HasSuffix(c11Sel(x.Fun), ".scheduleTask") && len(x.Args) >= 2 {
+				calls++
+				if id, ok := x.Args[1].(*ast.Ident); ok && id.Name == nodeVar && nodeVar != "" {
+					usesLooked = true
+				}
+			}
+		}
+		return true
+	})
+	if calls == 0 {
+		panic("scheduleWorker: no scheduleTask call found")
+	}
+	return drops && usesLooked && calls == 1
+}
+
+// c11CanStreamChecksFlag: node.canStream returns false when <n>.ss.streaming().
+func c11CanStreamChecksFlag() bool {
+	p := loadPkg(".")
+	fd := p.Func("node", "canStream")
+	found := false
+	ast.Inspect(fd.Body, func(n ast.Node) bool {
+		if x, ok := n.(*ast.IfStmt); ok {
+			if c, ok := x.Cond.(*ast.CallExpr); ok && strings.HasSuffix(c11Sel(c.Fun), ".ss.streaming") && len(x.Body.List) > 0 {
+				if r, ok := x.Body.List[len(x.Body.List)-1].(*ast.ReturnStmt); ok && len(r.Results) == 1 && c11Sel(r.Results[0]) == "false" {
+					found = true
+				}
+			}
+		}
+		return true
+	})
+	return found
+}
+
 func init() {
 	str := func(s string) string { return fmt.Sprintf("%q%%string", s) }
 	register(&Unit{Name: "C11", Imports: "From Coq Require Import Bool.", Facts: []Fact{
@@ -696,6 +759,14 @@ func init() {
 		{Name: "pool_stops_workers_before_unload", Gen: func() string {
 			return "(* workerPool.workerPoolMain on shutdown: workerStopper.Stop() before unloadNodes() *)\n" +
 				defBool("pool_stops_workers_before_unload", c11PoolStopOrder())
+		}},
+		{Name: "sched_checks_node_loaded", Gen: func() string {
+			return "(* workerPool.scheduleWorker drops a pending job whose shard is missing from the pool's node map and schedules on the looked-up node *)\n" +
+				defBool("sched_checks_node_loaded", c11SchedChecksLoaded())
+		}},
+		{Name: "can_stream_checks_streaming", Gen: func() string {
+			return "(* node.canStream refuses a stream task while node.ss.streaming() *)\n" +
+				defBool("can_stream_checks_streaming", c11CanStreamChecksFlag())
 		}},
 		{Name: "apply_checks_stopped", Gen: func() string {
 			return "(* engine.processApplies tests node.stopped() before node.handleTask *)\n" +
